@@ -6,6 +6,7 @@ import (
 	"bytes"
 	"context"
 	"encoding/json"
+	"errors"
 	"fmt"
 	"io"
 	"math/big"
@@ -73,6 +74,10 @@ type Emit struct {
 	ID      string          `json:"id,omitempty"`     // bridge / marshal: id text
 	Code    int             `json:"code,omitempty"`
 	Message string          `json:"message,omitempty"`
+	// Plain (errresponse): the handler fails with an error that is no *jrpc2.Error:
+	// "plain" errors.New(Message), "coder" an ErrCoder reporting Code. Its text is
+	// the message on the wire, letter for letter.
+	Plain string `json:"plain,omitempty"`
 	// Logger: the server has an RPCLogger that takes the parameters and the
 	// result as json.RawMessage (documented to be copies) and overwrites them.
 	Logger bool `json:"logger,omitempty"`
@@ -275,6 +280,12 @@ func runEmit(_ *testing.T, e Emit) engine.Verdict {
 	case "response", "errresponse", "push", "callback":
 		tp := newTap()
 		var h jrpc2.Handler = func(ctx context.Context, req *jrpc2.Request) (any, error) {
+			if e.Via == "errresponse" && e.Plain == "plain" {
+				return nil, errors.New(e.Message)
+			}
+			if e.Via == "errresponse" && e.Plain == "coder" {
+				return nil, codedErr{code: jrpc2.Code(e.Code), text: e.Message}
+			}
 			if e.Via == "errresponse" {
 				er := &jrpc2.Error{Code: jrpc2.Code(e.Code), Message: e.Message}
 				if e.Raw && len(e.Params) > 0 {
@@ -435,6 +446,16 @@ func runEmit(_ *testing.T, e Emit) engine.Verdict {
 			}
 		case "errresponse":
 			resp, err := refrpc.ParseResponse(it)
+			if e.Plain != "" {
+				wantCode := e.Code
+				if e.Plain == "plain" {
+					wantCode = int(jrpc2.SystemError)
+				}
+				if err != nil || !resp.IsError || resp.Code != wantCode || resp.Message != e.Message {
+					return fail("error-differs", "error on the wire %s, handler returned a %s error with text %q (code %d) (%v)", engine.Q(it), e.Plain, e.Message, wantCode, err)
+				}
+				break
+			}
 			if err != nil || !resp.IsError || resp.Code != e.Code || resp.Message != e.Message {
 				return fail("error-differs", "error on the wire %s, handler returned code %d message %q (%v)", engine.Q(it), e.Code, e.Message, err)
 			}
@@ -472,7 +493,15 @@ func deref(s *string) string {
 	return *s
 }
 
-var runes = []rune{'a', 'Z', '0', '.', '_', '"', '\\', '/', '\n', '\r', '\t', 0, 0x7f, '<', '>', '&', ' ', ' ', 'é', '😀', ' ', ' ', '�', '\u0085'}
+var runes = []rune{'a', 'Z', '0', '.', '_', '%', 'd', '"', '\\', '/', '\n', '\r', '\t', 0, 0x7f, '<', '>', '&', ' ', ' ', 'é', '😀', ' ', ' ', '�', '\u0085'}
+
+type codedErr struct {
+	code jrpc2.Code
+	text string
+}
+
+func (c codedErr) Error() string       { return c.text }
+func (c codedErr) ErrCode() jrpc2.Code { return c.code }
 
 func genText(t *rapid.T, label string, min int) string {
 	n := rapid.IntRange(min, 6).Draw(t, label+"len")
@@ -554,7 +583,10 @@ func genEmit(t *rapid.T) Emit {
 		}
 		e.Message = genText(t, "msg", 1)
 		if rapid.IntRange(0, 7).Draw(t, "nomsg") == 0 {
-			e.Message = "" // an error without a message is written without the member, and read back as such
+			e.Message = "" // an error without message text: the member is written all the same (F16) and reads back empty
+		}
+		if e.Via == "errresponse" && e.Code != -32099 && e.Code != 0 {
+			e.Plain = rapid.SampledFrom([]string{"", "", "plain", "coder"}).Draw(t, "plain")
 		}
 	}
 	e.Logger = (e.Via == "response" || e.Via == "errresponse" || (e.Via == "cbreply" && e.Code != 0)) && rapid.IntRange(0, 2).Draw(t, "logger") == 0
